@@ -692,7 +692,7 @@ where
     }
 }
 
-#[cfg(feature = "verif")]
+#[cfg(feature = "verif-hooks")]
 impl<T, B, GTarget> NUTSChain<T, B, GTarget>
 where
     T: Float,
